@@ -24,7 +24,7 @@ PROP = "C12"
 ALPHABET = [" ", "\n", "\r", "\t", "'", '"', "\\", "a", "é", "🐍", "\x00", "\x7f", "\u2028", "{", "#", "\x0c"]
 POSITIONS = ["whole", "list", "tuple1", "dictkey", "dictval", "callarg", "ins_list", "ins_dict", "ins_call", "in_create", "in_fix", "sub_key", "sub_val", "nested"]
 FORMATTERS = ["black", "noblack", "cmd_black", "cmd_cat"]
-PIECES = ["'''", '"""', "\n", "\\", "a", '"', "'", " "]
+PIECES = ["'''", '"""', "\n", "\\", "a", '"', "'", " ", " ,"]
 RULE = (
     "strings: ALL strings up to length 2 (quick) / 3 (thorough) over a 16-symbol adversarial alphabet and ALL products of up to 3 (quick) / 4 (thorough) multi-character pieces (both triple quotes, LF, backslash, quotes, blank) (alphabet: blank, LF, CR, TAB, both quotes, backslash, "
     "a, é, 🐍, NUL, DEL, U+2028, {, #, FF) plus seeded random str (full Unicode incl. lone surrogates excluded: not encodable in a UTF-8 file) and bytes up to length 200; "
